@@ -7,5 +7,5 @@ trap 'git -C /repo worktree remove --force $WT 2>/dev/null' EXIT
 ROOT="$(cd "$(dirname "$0")/.." && pwd)"
 P=$ROOT/seeded/$SEED/patch.diff; [ -f $ROOT/seeded/$SEED/patch.rebased.diff ] && P=$ROOT/seeded/$SEED/patch.rebased.diff
 git -C $WT apply $P 2>/dev/null || git -C $WT apply -3 $P || exit 2
-cd $ROOT && VERIF_REPO=$WT bin/check $CHK --no-evidence "$@"
+cd $ROOT && VERIF_STOP_AT_FIRST=1 VERIF_REPO=$WT bin/check $CHK --no-evidence "$@"
 echo "exit=$?"
